@@ -303,7 +303,7 @@ def run(chk):
     chk.rule("R16.1", "closed-form CW matrices satisfy Hill's ODE and initial values entry by entry (term algebra)")
     chk.rule("R16.2", "QSW<->TNW is the fixed signed permutation; TNW arm is a similarity transform")
     chk.rule("R16.3", "maneuver sequencing and two-sided applicability window in propagate()")
-    r16_1(chk)
-    r16_2(chk)
-    r16_3(chk)
+    chk.guard(r16_1, chk)
+    chk.guard(r16_2, chk)
+    chk.guard(r16_3, chk)
     chk.assume("Hill's equations: x''=3n²x+2ny'+ax, y''=-2nx'+ay, z''=-n²z+az with x radial, y along-track, z cross-track")
